@@ -221,6 +221,114 @@ Example c07_transp1d_int_would_overflow :
   t1d_dom ex_t1d_small /\ exists v, In (I64, v) (balance_assign_vals ex_t1d_small) /\ ~ fits (I32, v).
 Proof. exact t1d_int_would_overflow. Qed.
 
+(* ---------- density grid (density_grid.cpp, Rectangle) and the area sums of coloquinte.cpp ---------- *)
+Require Import CV.FreeSpace CV.Density CV.DensityProofs CV.DensityMachine CV.DensityMachineProofs.
+
+(* rbox r: a proper rectangle inside [-2^22, 2^22]^2;  SUMB = 2^62;  inbox x: |x| <= 2^22 *)
+(* [F] the constructor DensityGrid(binSize, regions): updateBinsToSize (no division by zero / INT_MIN / -1 for
+   binSize >= 1), computeSubdivisions twice, updateBinCenters' int sums, updateBinCapacity() and the running capacity of
+   every bin in updateBinCapacity(regions), for every non-empty list of regions of the range whose areas sum to <= 2^62 *)
+Theorem c07_density_grid_no_overflow : forall binSize regions,
+  Forall rbox regions -> regions <> [] -> sumZ (map rarea regions) <= SUMB -> 1 <= binSize ->
+  Forall fits (grid_vals binSize regions).
+Proof. exact grid_vals_fit. Qed.
+(* the sum hypothesis holds for up to 2^16 regions (free row segments) of the range *)
+Theorem c07_density_regions_count : forall regs,
+  Forall rbox regs -> Z.of_nat (length regs) <= 65536 -> sumZ (map rarea regs) <= SUMB.
+Proof. exact regions_count_sum. Qed.
+(* [F] the parts, for arbitrary non-decreasing bin limits *)
+Theorem c07_density_capacity_no_overflow : forall lx ly regs,
+  chainZ lx -> chainZ ly -> Forall rbox regs -> sumZ (map rarea regs) <= SUMB -> Forall fits (capacity_vals lx ly regs).
+Proof. exact capacity_vals_fit. Qed.
+Theorem c07_density_cap0_no_overflow : forall lx ly, Forall inbox lx -> Forall inbox ly -> Forall fits (cap0_vals lx ly).
+Proof. exact cap0_vals_fit. Qed.
+Theorem c07_density_centers_no_overflow : forall lims,
+  Forall inbox lims -> zi (length lims) < 2147483647 -> Forall fits (centers_vals lims).
+Proof. exact centers_vals_fit. Qed.
+Theorem c07_density_nb_bins_no_overflow : forall a maxSize, rbox a -> 1 <= maxSize -> Forall fits (nb_bins_vals a maxSize).
+Proof. exact nb_bins_vals_fit. Qed.
+(* [F] DensityGrid::fromIspdCircuit: clipping the rows by margin = (int)(sideMargin * minCellHeight), an input here *)
+Theorem c07_density_clip_no_overflow : forall margin rows,
+  Forall rbox rows -> 0 <= margin < 1073741824 -> Forall fits (clip_vals margin rows).
+Proof. exact clip_vals_fit. Qed.
+(* [F] every long long sum of non-negative entries with total <= 2^62: totalCapacity, binCapacity(BinGroup), totalDemand,
+   binUsage; and totalOverflow *)
+Theorem c07_density_sum_no_overflow : forall l, (forall x, In x l -> 0 <= x) -> sumZ l <= SUMB -> Forall fits (sum_vals l).
+Proof. exact sum_vals_fit. Qed.
+Theorem c07_density_overflow_no_overflow : forall uc,
+  Forall (fun p => 0 <= fst p <= SUMB /\ 0 <= snd p <= SUMB) uc -> sumZ (map fst uc) <= SUMB -> Forall fits (overflow_vals uc).
+Proof. exact overflow_vals_fit. Qed.
+(* [F] cell demands = areas narrowed to int (HierarchicalDensityPlacement::fromIspdCircuit / updateCellDemand): safe when
+   each area is below 2^31 -- the clause of the property's quantifier -- and NOT otherwise *)
+Theorem c07_density_demand_no_overflow : forall wh,
+  Forall (fun p => - 2 * COORD <= fst p <= 2 * COORD /\ - 2 * COORD <= snd p <= 2 * COORD /\ 0 <= fst p * snd p < 2147483648) wh ->
+  Forall fits (demand_vals wh).
+Proof. exact demand_vals_fit. Qed.
+Example c07_density_demand_needs_area_bound : exists v, In v (demand_vals [(65536, 32768)]) /\ ~ fits v.
+Proof. exact demand_needs_area_bound. Qed.
+(* [F] Circuit::area and the sum over the movable cells (expandCellsToDensity / expandCellsByFactor) *)
+Theorem c07_cell_area_no_overflow : forall wh,
+  Forall (fun p => - 2 * COORD <= fst p <= 2 * COORD /\ - 2 * COORD <= snd p <= 2 * COORD /\ 0 <= fst p * snd p < 2147483648) wh ->
+  Z.of_nat (length wh) <= 2147483647 -> Forall fits (cell_area_vals wh).
+Proof. exact cell_area_vals_fit. Qed.
+(* [F] computeRowPlacementArea: w * h and the sum, for up to 2^16 free row segments; the width left after the (double)
+   margin computation is an input not larger than the row width *)
+Theorem c07_row_area_no_overflow : forall rows,
+  Forall (fun rw => rbox (fst rw) /\ - 2 * COORD <= snd rw <= maxX (fst rw) - minX (fst rw)) rows ->
+  Z.of_nat (length rows) <= 65536 -> Forall fits (row_area_vals rows).
+Proof. exact row_area_vals_fit. Qed.
+
+Example c07_density_nonvacuous :
+  Forall rbox ex_regs /\ ex_regs <> [] /\ sumZ (map rarea ex_regs) <= SUMB /\
+  length (grid_vals 2097152 ex_regs) = 280%nat /\ In (I64, 4398046511104) (grid_vals 2097152 ex_regs).
+Proof. exact grid_nonvacuous. Qed.
+Example c07_density_int_would_overflow :
+  Forall inbox [0; 65536] /\ exists v, In (I64, v) (cap0_vals [0; 65536] [0; 65536]) /\ ~ fits (I32, v).
+Proof. exact density_int_would_overflow. Qed.
+
+(* ---------- transportation.cpp: TransportationProblem / TransportationSuccessiveShortestPath (integer side) ---------- *)
+Require Import CV.Ssp CV.SspMachine CV.SspMachineProofs.
+
+(* [F] totalDemand / totalCapacity (std::accumulate) and increaseCapacity: non-negative entries, totals <= 2^62, at
+   least one sink (no division by zero) *)
+Theorem c07_ssp_accumulate_no_overflow : forall l,
+  (forall x, In x l -> 0 <= x) -> zsuml l <= SUMB -> Forall fits (accumulate_vals l).
+Proof. exact accumulate_vals_fit. Qed.
+Theorem c07_ssp_increase_capacity_no_overflow : forall pb,
+  (0 < nsnk pb)%nat -> Z.of_nat (nsnk pb) < 2147483647 ->
+  (forall x, In x (dems pb) -> 0 <= x) -> (forall x, In x (caps pb) -> 0 <= x) ->
+  Ssp.total_demand pb <= SUMB -> Ssp.total_capacity pb <= SUMB -> Forall fits (increase_capacity_vals pb).
+Proof. exact increase_capacity_vals_fit. Qed.
+(* cost_dom pb: the guarantee of costsFromIntegers on its integer results (costs in [0, about INT_MAX / (4 nbSinks)]);
+   the float side of the scaling is a stated precondition.  [F] every problem-level moving cost fits int and is
+   within the same bound *)
+Theorem c07_ssp_moving_cost_no_overflow : forall pb src a b, cost_dom pb ->
+  Forall fits (moving_vals pb src a b) /\
+  4 * Z.of_nat (nsnk pb) * Z.abs (pmoving pb src a b) <= 2147483647 + 2 * Z.of_nat (nsnk pb).
+Proof. exact moving_vals_fit. Qed.
+(* _partial (one step, under the label bound of a shortest-path tree: |sendingCost_[i]| <= about INT_MAX / 4; that the
+   labels stay within it along the run is the successive-shortest-path invariant left unproved by C13) *)
+Theorem c07_ssp_best_sink_no_overflow_partial : forall pb sc src,
+  cost_dom pb -> label_dom pb sc -> Forall fits (best_sink_vals pb sc src).
+Proof. exact best_sink_vals_fit. Qed.
+Theorem c07_ssp_relax_no_overflow_partial : forall pb mc scb,
+  cost_dom pb -> 4 * Z.of_nat (nsnk pb) * Z.abs mc <= 2147483647 + 2 * Z.of_nat (nsnk pb) ->
+  4 * Z.abs scb <= 2147483647 + 2 * Z.of_nat (nsnk pb) -> Forall fits (relax_vals mc scb).
+Proof. exact relax_vals_fit. Qed.
+(* [F] updateTree never adds to the INT_MAX sentinel: the sink it relaxes from has a finite label *)
+Theorem c07_ssp_relax_never_adds_sentinel : forall pb t b,
+  select_best (nsnk pb) t = Some b -> getZ (t_sc t) b < INT_MAX.
+Proof. exact relax_never_adds_sentinel. Qed.
+(* bestSink WOULD overflow on a sentinel label (it adds for every sink): what prevents it is that bestSink is only
+   called while demand is outstanding, hence while some sink is free (C13's accounting invariant) *)
+Example c07_ssp_best_sink_sentinel_would_overflow :
+  exists v, In v (best_sink_vals (mkPb [1] [1] [[5]]) [INT_MAX] 0) /\ ~ fits v.
+Proof. exact best_sink_sentinel_would_overflow. Qed.
+Example c07_ssp_nonvacuous :
+  cost_dom ex_ssp_pb /\ label_dom ex_ssp_pb [536870913; -536870913; 0; 7] /\
+  In (I32, 671088641) (best_sink_vals ex_ssp_pb [536870913; -536870913; 0; 7] 0).
+Proof. exact ssp_machine_nonvacuous. Qed.
+
 Print Assumptions c07_rowleg_cost_bound.
 Print Assumptions c07_abacus_try_no_overflow.
 Print Assumptions c07_abacus_place_no_overflow.
@@ -241,3 +349,21 @@ Print Assumptions c07_transp1d_balance_no_overflow.
 Print Assumptions c07_transp1d_balance_keeps_domain.
 Print Assumptions c07_transp1d_solution_no_overflow.
 Print Assumptions c07_transp1d_assign_total.
+Print Assumptions c07_density_grid_no_overflow.
+Print Assumptions c07_density_regions_count.
+Print Assumptions c07_density_capacity_no_overflow.
+Print Assumptions c07_density_cap0_no_overflow.
+Print Assumptions c07_density_centers_no_overflow.
+Print Assumptions c07_density_nb_bins_no_overflow.
+Print Assumptions c07_density_clip_no_overflow.
+Print Assumptions c07_density_sum_no_overflow.
+Print Assumptions c07_density_overflow_no_overflow.
+Print Assumptions c07_density_demand_no_overflow.
+Print Assumptions c07_cell_area_no_overflow.
+Print Assumptions c07_row_area_no_overflow.
+Print Assumptions c07_ssp_accumulate_no_overflow.
+Print Assumptions c07_ssp_increase_capacity_no_overflow.
+Print Assumptions c07_ssp_moving_cost_no_overflow.
+Print Assumptions c07_ssp_best_sink_no_overflow_partial.
+Print Assumptions c07_ssp_relax_no_overflow_partial.
+Print Assumptions c07_ssp_relax_never_adds_sentinel.
